@@ -755,6 +755,17 @@ def _da_factory(owner):
     return mk
 
 
+@factory("Record")
+def make_record(ex, name, env, cls="Record", fields=None, **kw):
+    """a plain object of a repo class with the given typed fields: obj('Record', cls='GridSubsetAccessor', fields={'uxgrid': "obj('Grid')"})
+    (methods are looked up through options['classes'][cls])"""
+    from .typespec import make_value
+    o = Obj(cls)
+    for fname, fspec in (fields or {}).items():
+        o.fields[fname] = make_value(ex, fspec, f"{name}.{fname}", env)
+    return o
+
+
 @factory("Dataset")
 def make_dataset(ex, name, env, owner="caller", **kw):
     ds = Obj("Dataset")
